@@ -59,15 +59,15 @@ type crashCase struct {
 
 // Agg is what the orchestrator accumulates for the evidence file.
 type Agg struct {
-	Runs     int
-	RaceRuns int
-	Events   int64
-	Stats    map[string]int64
-	Sigs     map[uint64]bool
-	Samples  []interface{}
-	Known    map[string]int
-	KnownWhat map[string]string
-	Seeds    []uint64
+	Runs          int
+	RaceRuns      int
+	Events        int64
+	Stats         map[string]int64
+	Sigs          map[uint64]bool
+	Samples       []interface{}
+	Known         map[string]int
+	KnownWhat     map[string]string
+	Seeds         []uint64
 	WorkerSeconds float64
 }
 
